@@ -10,6 +10,12 @@ import traceback
 
 def main():
     modname = sys.argv[1]
+    try:  # die with the parent
+        import ctypes
+        import signal
+        ctypes.CDLL(None).prctl(1, signal.SIGKILL)
+    except Exception:
+        pass
     args = sys.argv[2:]
     out = os.fdopen(os.dup(1), "w", buffering=1)
     os.dup2(2, 1)  # stray prints go to stderr
